@@ -183,13 +183,18 @@ def check(run):
                            'emptied after each message; _frames has no other writer', 5)
     R.rule('C01.dispatch', 'opcode -> message class table, class opcodes, is_* properties and the event dispatch agree; '
                            'each branch yields one event carrying the message\'s own payload attribute', 14)
-    R.rule('C01.length', 'payload read count is the decoded wire length (7-bit, !H, !Q forms)', 2)
+    R.rule('C01.length', 'payload read count is the decoded wire length (7-bit, !H, !Q forms); header fields and '
+                         'length forms decoded with the RFC 6455 layout; marker tests read the 7-bit field; awaitables '
+                         'are created per read', 2)
     R.rule('C01.join', 'message payload = in-order join of bytes(frame.payload) for every frame, or the decompressor output', 3)
     R.rule('C01.bookkeeping', 'per-frame bookkeeping (text tracking / validator reset) is sound and runs for every frame', 6)
     alias(R)
     conserve(R)
     dispatch(R)
     length(R)
+    from . import C04
+    C04.wire(R, RID='C01.length')
+    C05.awaitables_fresh(R, RID='C01.length')
     join(R)
     C05.track(R, RID='C01.bookkeeping')
 
@@ -274,38 +279,69 @@ def conserve(R):
     nexts = [n for n in g.live_nodes() if fv in defs_of_node(n)]
     need(len(nexts) == 1, 'WebsocketStream.feed: frame variable has %d definitions' % len(nexts))
     nxt_ = nexts[0]
+    from .common import value_cases, facts
     bm = calls_to(R, g, 'stream.WebsocketStream.build_message')
-    single = [n for (n, c) in bm if isinstance(c.args[0], ast.List) and [U(e) for e in c.args[0].elts] == [fv] and n.kind == 'yield']
-    whole = [n for (n, c) in bm if U(c.args[0]) == 'self._frames' and n.kind == 'yield']
+    single, whole = [], []
+    for (n, c) in bm:
+        if n.kind != 'yield':
+            continue
+        for (conds, val, site) in value_cases(R, g, n, c.args[0]):
+            if isinstance(val, ast.List) and [U(e) for e in val.elts] == [fv]:
+                single.append((n, conds, site))
+            elif U(val) == 'self._frames':
+                whole.append((n, conds, site))
+            else:
+                R.ob('C01.conserve', 'message built from the frame or the fragment list', False,
+                     'build_message(%s)' % U(val), func=q, node=c)
     need(single and whole, 'WebsocketStream.feed: control / data message yields not found')
-    consume = single + [an]
+    consume = [n for (n, _, _) in single] + [an]
     heads = [h for h in g.live_nodes() if h.kind == 'loophead']
     ok = all_paths_pass(g, normal_succs(nxt_), consume, heads + [g.exit], skip_edge=nx)
     R.ob('C01.conserve', 'every frame is consumed', ok, 'a frame pulled from the parser can be dropped (neither queued nor '
          'delivered) on a normal path', func=q, node=nxt_.ast)
-    twice = any(c2 in g.succ_reach(c1, avoid={nxt_}, skip_edge=nx) for c1 in consume for c2 in consume)
-    R.ob('C01.conserve', 'no frame is consumed twice', not twice, 'a frame can be queued/delivered twice', func=q, node=nxt_.ast,
-         construct='double consumption')
+    CTL = fv + '.opcode >= 8'
     # control frames bypass the fragment list; data frames go through it
-    for n in single:
-        lits = {(t, p) for (t, p, _) in guards_of(g, n)}
-        R.ob('C01.conserve', 'only control frames bypass the fragment list', (fv + '.is_control', True) in lits,
-             'single-frame message built under %s' % sorted(lits), func=q, node=n.ast)
-    lits = {(t, p) for (t, p, _) in guards_of(g, an)}
-    R.ob('C01.conserve', 'data frames are queued', (fv + '.is_control', False) in lits, 'append under %s' % sorted(lits), func=q, node=ac)
-    # the list is emptied after each message, before the next frame is pulled
+    for (n, conds, site) in single:
+        fx = facts(R, g, site, start=nxt_) | set(conds)
+        R.ob('C01.conserve', 'only control frames bypass the fragment list', (fv + '.is_control', True) in fx or (CTL, True) in fx,
+             'single-frame message built under %s' % sorted(t for (t, p) in fx if p)[:5], func=q, node=n.ast)
+    fx = facts(R, g, an, start=nxt_)
+    R.ob('C01.conserve', 'data frames are queued', (fv + '.is_control', False) in fx or (CTL, False) in fx,
+         'append under %s' % sorted(fx)[:5], func=q, node=ac)
+    for (n, conds, site) in whole:
+        fx = facts(R, g, site, start=nxt_) | set(conds)
+        R.ob('C01.conserve', 'the fragment list is delivered only for a data frame', (fv + '.is_control', False) in fx or (CTL, False) in fx,
+             'build_message(self._frames) reachable for a control frame', func=q, node=n.ast)
+    # the list is emptied after each message, before the next frame is pulled - and only then
     clears = [n for n in g.live_nodes() if n.kind == 'stmt' and (
         (isinstance(n.ast, ast.Delete) and U(n.ast.targets[0]) == 'self._frames[:]') or
         (isinstance(n.ast, ast.Expr) and U(n.ast.value) == 'self._frames.clear()') or
         (isinstance(n.ast, ast.Assign) and U(n.ast.targets[0]) in ('self._frames', 'self._frames[:]') and U(n.ast.value) == '[]'))]
-    for y in whole:
+    wy = [n for (n, _, _) in whole]
+    for y in set(wy):
         ok = bool(clears) and all_paths_pass(g, normal_succs(y), clears, heads + [g.exit, an], skip_edge=nx)
         R.ob('C01.conserve', 'fragment list emptied after each message', ok,
              'after a message is delivered its fragments stay queued: they are delivered again as the prefix of the next '
              'message', func=q, node=y.ast)
-        lits = {(t, p) for (t, p, _) in guards_of(g, y)}
-        R.ob('C01.conserve', 'message completes at FIN', (fv + '.fin', True) in lits and all_paths_pass(g, normal_succs(nxt_), [an], [y], skip_edge=nx),
-             'data message built under %s / before the final frame was queued' % sorted(lits), func=q, node=y.ast)
+        fx = facts(R, g, y, start=nxt_)
+        R.ob('C01.conserve', 'message completes at FIN', (fv + '.fin', True) in fx,
+             'data message built under %s' % sorted(t for (t, p) in fx if p)[:5], func=q, node=y.ast)
+    for cl in clears:
+        bad = []
+        for l in path_conditions(R, g, rd, nxt_, cl):
+            if (fv + '.is_control', False) not in l and (CTL, False) not in l:
+                bad.append(sorted(t for (t, p) in l if p)[:5])
+        R.ob('C01.conserve', 'fragment list emptied only after a data message', not bad and
+             all_paths_pass(g, normal_succs(nxt_), wy, [cl], skip_edge=nx),
+             'the fragment list can be cleared while processing a control frame (or before the message was delivered): a '
+             'Ping/Pong between fragments discards the fragments received so far %s' % bad[:1], func=q, node=cl.ast)
+    # a data message is built only after its final frame was queued
+    for y in set(wy):
+        from .C04 import _paths_avoiding
+        skipping = [l for l in _paths_avoiding(R, g, rd, nxt_, y, {an})
+                    if (fv + '.is_control', False) in l or (CTL, False) in l]
+        R.ob('C01.conserve', 'final data frame queued before the message is built', not skipping,
+             'a data message can be built without its final frame', func=q, node=y.ast)
     w = stores_in_package(R, '_frames')
     quals = sorted(set(c.func.qual for (c, s, t, v) in w))
     okw = all(qq in ('stream.WebsocketStream.__init__', q) for qq in quals)
